@@ -4,7 +4,7 @@ from datetime import date, datetime
 from ipaddress import IPv4Network, IPv6Network
 from typing import Any, List, Type, TypeVar, Union
 
-from pydantic import BeforeValidator, Field, GetCoreSchemaHandler
+from pydantic import BeforeValidator, Field, GetCoreSchemaHandler, WrapValidator
 from pydantic._internal import _schema_generation_shared
 from pydantic.json_schema import JsonSchemaValue
 from pydantic_core import core_schema
@@ -125,6 +125,16 @@ def validate_binary(value: Any) -> bytearray:
 Binary = Annotated[bytes, BeforeValidator(validate_binary)]
 
 
+def _out_of_range_is_invalid(value: Any, handler) -> Any:
+    # pydantic accepts the text "0000-01-01" and then lets datetime's own `ValueError: year 0 is out of range` escape
+    # unwrapped. Raised from inside a validator function, that same ValueError is reported as a validation error.
+    return handler(value)
+
+
+SafeDate = Annotated[date, WrapValidator(_out_of_range_is_invalid)]
+SafeDatetime = Annotated[datetime, WrapValidator(_out_of_range_is_invalid)]
+
+
 T = TypeVar("T")
 
 Resolvable = Annotated[Union[T, FunctionDict], Field(union_mode="left_to_right")]
@@ -134,8 +144,8 @@ ResolvableStr = Resolvable[str]
 ResolvableArn = ResolvableStr
 ResolvableCondition = ResolvableStr
 ResolvableInt = Resolvable[int]
-ResolvableDate = Resolvable[date]
-ResolvableDatetime = Resolvable[datetime]
+ResolvableDate = Resolvable[SafeDate]
+ResolvableDatetime = Resolvable[SafeDatetime]
 ResolvableBool = Resolvable[SemiStrictBool]
 
 ResolvableIPv4Network = Resolvable[LooseIPv4Network]
